@@ -838,7 +838,7 @@ func (la *lockAnalysis) advisoryCall(in ssa.Instruction) bool {
 		return false
 	}
 	if res.Len() == 1 {
-		if !isBoolType(res.At(0).Type()) {
+		if !isBoolType(res.At(0).Type()) && !la.verdictOnly(cf) {
 			return false
 		}
 	} else if call.Referrers() != nil {
@@ -889,6 +889,44 @@ func (la *lockAnalysis) advisoryCall(in ssa.Instruction) bool {
 		return true
 	}
 	return probeOnly(cf, 0)
+}
+
+// verdictOnly: the single result of fn carries a verdict, not data: every value it returns is nil or is built without
+// anything that was read out of the keyspace (a constant error reply chosen by what the lookup found).
+func (la *lockAnalysis) verdictOnly(fn *ssa.Function) bool {
+	if fn.Blocks == nil {
+		return false
+	}
+	for _, b := range fn.Blocks {
+		ret, ok := b.Instrs[len(b.Instrs)-1].(*ssa.Return)
+		if !ok || len(ret.Results) != 1 {
+			continue
+		}
+		for _, v := range retResults(ret)[0] {
+			if isNilConst(v) {
+				continue
+			}
+			tainted := false
+			backslice(v, func(x ssa.Value) bool {
+				if ci, ok := x.(ssa.CallInstruction); ok {
+					if a := la.c.keyspaceAccess(ci); a != nil {
+						tainted = true
+					}
+				}
+				switch x.(type) {
+				case *ssa.Parameter, *ssa.FreeVar, *ssa.Global:
+					// the key, the database: not stored data
+				case *ssa.TypeAssert:
+					tainted = true
+				}
+				return !tainted
+			})
+			if tainted {
+				return false
+			}
+		}
+	}
+	return true
 }
 
 func isBoolType(t types.Type) bool {
